@@ -117,7 +117,7 @@ C14_DIV_EXCEPTIONS = {
         _SANE + "R_f = R + 2*Rsi >= 0.20 > 0 for non-negative layer resistances",
     'c14.div|bemodel::energy::transmittance::<impl types::opaques::Wall>::u_value|divisor=R_f|1':
         _SANE + "R_f = R + 2*Rsi >= 0.20 > 0 for non-negative layer resistances",
-    'c14.div|bemodel::energy::transmittance::<impl types::opaques::Wall>::u_value_exterior|divisor=Add(Add(branch(..)@Continue.0,rsi),0.04)':
+    'c14.div|bemodel::energy::transmittance::<impl types::opaques::Wall>::u_value_exterior|divisor=Add(Add(resistance?,rsi),0.04)':
         _SANE + "R + Rsi + Rse >= 0.10 + 0.04 > 0 for non-negative layer resistances",
     'c14.div|bemodel::energy::transmittance::<impl types::opaques::Wall>::u_value_gnd_slab|divisor=Add(Mul(3.1415927,char_dim),Add(d_t,Mul(0.5,z)))':
         _SANE + "B' > 0 (slab with area, P >= 0.01), d_t > 0, z = max(-space.z, 0) >= 0",
@@ -181,7 +181,7 @@ C19_EXCEPTIONS = {
         "slice::chunks never yields an empty chunk",
     'c19.panic|bemodel::convert::from_ctehexml::shades_from_bdl|panic!|discr(bdl.shadings[].geometry)=else:1;discr(bdl.shadings[].vertices)=else:1':
         "hulc Shading::try_from builds exactly one of `geometry` / `vertices` (both constructor branches set one of them to Some) [C18-D4 rows of BUILDING-SHADE]",
-    'c19.panic|bemodel::convert::from_ctehexml::windows_and_shades_from_bdl|expect|WallGeom::to_global_coords_matrix(branch(ok_or_else(..,..))@Continue.0.geometry)':
+    'c19.panic|bemodel::convert::from_ctehexml::windows_and_shades_from_bdl|expect|WallGeom::to_global_coords_matrix(ok_or_else(find(slice::iter(..),{closure}),{closure})?.geometry)':
         "to_global_coords_matrix is None only without position, and every wall passed in comes from wall_geometry, whose only WallGeom literal sets position: Some(..) [C03-D2 reads that literal]",
     'c19.panic|bemodel::utils::uuid_from_obj|Index::index|hint::must_use(fmt::format(Arguments::new(const,array{..})))[Range{..}]':
         _UUID,
